@@ -173,6 +173,37 @@ class FlowRobust:
         out = []
         for p in ("ipfix", "nf9"):
             out += self.type_sweep(p, gens[p], rng)
+        # every truncation offset of a message announcing a plain and an options template (variable-length scope field), and of its data
+        for p in ("ipfix", "nf9"):
+            g = gens[p]; cmd = "ipfixh" if p == "ipfix" else "nf9h"; addr = rand_addr(rng)
+            for _ in range(1 if tier == "quick" else 12):
+                t1, o1 = g.rand_tpl(tid=300, opts=True, allow_var=True)
+                t2, o2 = g.rand_tpl(tid=301, opts=False, allow_var=True)
+                m1 = g.enc_msg([g.enc_set(g.tpl_set_id(o1), g.enc_tpl(t1, o1)), g.enc_set(g.tpl_set_id(o2), g.enc_tpl(t2, o2))])
+                m2 = g.enc_msg([g.enc_set(t1.tid, g.rand_record(t1)[0]), g.enc_set(t2.tid, g.rand_record(t2)[0])])
+                out += ["%s %s %s" % (cmd, hx(addr), hx(m1[:n])) for n in range(len(m1) + 1)]
+                out += ["%s %s %s %s %s" % (cmd, hx(addr), hx(m1), hx(addr), hx(m2[:n])) for n in range(len(m2) + 1)]
+        # a sampled header cut (by the sampling agent) at every offset of its Ethernet / IP / transport headers
+        import struct as _st
+        for _ in range(2 if tier == "quick" else 30):
+            dv = sfgen.Distinct(rng, False)
+            body, tree, hdr = sfgen.gen_raw_header(rng, dv)
+            hp = _st.unpack(">I", body[:4])[0]
+            for n in range(min(len(hdr), 90) + 1):
+                h = hdr[:n]
+                rec = _st.pack(">II", 1, 16 + len(sfgen.xdr_pad(h))) + _st.pack(">IIII", hp, 1500, 0, len(h)) + sfgen.xdr_pad(h)
+                fs = _st.pack(">IIIIIIII", 1, 0, 1, 1, 0, 1, 2, 1) + rec
+                pkt = _st.pack(">II", 5, 1) + bytes([10, 0, 0, 1]) + _st.pack(">IIII", 0, 1, 2, 1) + _st.pack(">II", 1, len(fs)) + fs
+                out.append("sflow %s" % hx(pkt))
+        # every truncation offset (every short-read branch of the straight-line decoders) of a few sFlow datagrams and a v5 packet
+        for _ in range(2 if tier == "quick" else 40):
+            pkt = sfgen.gen_datagram(rng, kinds=["flow", "counter", "flow"])[0]
+            if len(pkt) <= 1200:
+                out += ["sflow %s" % hx(pkt[:n]) for n in range(len(pkt) + 1)]
+        for _ in range(1 if tier == "quick" else 10):
+            _, a, pk = v5mod.PROP.gen_case(rng).split()
+            raw = bytes.fromhex(pk[1:])[:24 + 48 * 3]
+            out += ["nf5 %s %s" % (a, hx(raw[:n])) for n in range(len(raw) + 1)]
         for i in range(budget):
             proto = self.protos[i % len(self.protos)]
             if proto == "nf5":
